@@ -245,7 +245,16 @@ func c18Case(c *Ctx) {
 				if canary {
 					n := c.R.Range(2, 6)
 					for i := 0; i < n; i++ {
-						w.Words = append(w.Words, canaryWord(c.R))
+						cw := canaryWord(c.R)
+						switch c.R.Intn(5) {
+						case 0: // title-casing does not change these: digit first, already capitalised, caseless script
+							cw = "7" + cw
+						case 1:
+							cw = strings.ToUpper(cw[:1]) + cw[1:]
+						case 2:
+							cw = strings.Join(c.R.ShuffleStrings(canaryChars)[:6], "") + cw[:4]
+						}
+						w.Words = append(w.Words, cw)
 					}
 					if c.R.Bool() {
 						w.Words = append(w.Words, w.Words[0]) // duplicate: the notice path
